@@ -142,6 +142,12 @@ def build_inputs(rng, kind):
         tj, _ = G.gen_topology(rng, max_sites=4, max_spans=3, long_fibers=(kind == 'long'), per_degree=rng.random() < 0.4,
                                per_freq_loss=rng.random() < 0.3, lumped=rng.random() < 0.2, max_km=140,
                                chassis=rng.random() < 0.2)
+    if kind in ('long', 'p2p', 'mesh'):
+        # fibres that get split and carry element-level values (PMD coefficient): every sub-span keeps them, in the
+        # designed network and in its saved form
+        for e in tj['elements']:
+            if e['type'] == 'Fiber' and e['params']['length'] > 100 and rng.random() < 0.5:
+                e['params']['pmd_coef'] = G.pick(rng, [3e-15, 2.5e-15, 6e-15])
     return ej, tj, rand_sim(rng, raman_net), raman_net
 
 
@@ -152,7 +158,13 @@ def gsnr_of(equipment, network, src, dst, raman_net=False):
     req = W.make_request(equipment, src, dst)
     path = W.route(network, req)
     p, si, _, _ = W.propagate_copy(path, req, equipment)
+    FIG[0] = {'osnr_ase_01nm': np.asarray(p[-1].osnr_ase_01nm, dtype=float), 'cd': np.asarray(si.chromatic_dispersion, dtype=float),
+              'pmd': np.asarray(si.pmd, dtype=float), 'pdl': np.asarray(si.pdl, dtype=float),
+              'latency': np.asarray(si.latency, dtype=float), 'pch_dbm': 10 * np.log10(np.asarray(si.pch, dtype=float) * 1e3)}
     return np.asarray(p[-1].snr_01nm, dtype=float), [n.uid for n in path]
+
+
+FIG = [None]      # the other figures the last propagation ended with (OSNR, CD, PMD, PDL, latency, power)
 
 
 def classify_exception(e, tbs, ctx):
@@ -187,6 +199,7 @@ def run_case(case, ctx):
     a, z = rng.sample(trx, 2)
     try:
         g_prev, route_prev = gsnr_of(eq1, net1, a, z, raman_net)
+        fig_prev = FIG[0]
     except W.NoChannelInBand:
         g_prev = None
     for r in range(rounds):
@@ -225,6 +238,16 @@ def run_case(case, ctx):
                 ctx.violation('redesign-changes-results', f'round {r + 1}: the saved design does not reproduce the '
                               f'propagation results ({a} -> {z}): GSNR {g_prev[:3]} vs {g_n[:3]}')
                 return
+            # everything else the propagation accumulates must be reproduced as well (dB figures to 1e-4 dB, the
+            # others to 1e-6 relative: the export rounds lengths to the micrometre)
+            for k, v in FIG[0].items():
+                u = fig_prev[k]
+                tol = 1e-4 if k in ('osnr_ase_01nm', 'pch_dbm') else 1e-6 * max(1e-30, float(np.max(np.abs(u))))
+                ctx.count('other_figures_compared')
+                if u.shape != v.shape or np.max(np.abs(u - v)) > tol:
+                    ctx.violation('redesign-changes-results', f'round {r + 1}: the saved design does not reproduce the '
+                                  f'propagation results ({a} -> {z}): {k} {u[:3]} vs {v[:3]}')
+                    return
         prev = xn
     ctx.cls(f'kind:{case["kind"]}', 'mode:power' if ej['Span'][0]['power_mode'] else 'mode:gain', f'eol:{eol}',
             f'raman_flag:{sim["raman_params"]["flag"]}', f'nli:{sim["nli_params"]["method"]}')
